@@ -80,6 +80,22 @@ def run(ck):
                 continue
             seen.add(mn)
             ck.violation(dict(b, kind="failing-input", failing_cases_of_this_mnemonic=sum(1 for x in prop_bad if x["text"].split()[0] == mn)))
+    elif okh:
+        # the Lean side is not available (translator or proofs broken): still search for a concrete failing input with the
+        # oracles that need the real code only (tagged reads, cleared forward slots)
+        ins, go, _ = ck.run_stream("c02", driver=False)
+        ck.cov["evaluations"] += len(ins)
+        seen = set()
+        for i, line in enumerate(ins):
+            o = go[2 * i + 1]
+            if "=DIFF" in o:
+                text = line.split("text= ", 1)[1] if "text= " in line else "?"
+                mn = text.split()[0] if text.split() else "?"
+                if mn in seen:
+                    continue
+                seen.add(mn)
+                ck.violation({"kind": "failing-input", "case": line, "text": text, "go_outcome": o,
+                              "clause": "an operand read ignores a younger rename-table write / a cleared forward slot restores the plain behaviour"})
     ck.assumptions = ["loads receive exactly `width` bytes from the caller (every variant builds the slice from MemoryRead's addresses)",
                       "x0 reads 0 in the context (Props.C02.zero_reads_zero gives the condition)",
                       "error messages are not modelled: any non-nil error is `err`"]
